@@ -4,8 +4,11 @@
 //        input + executed schedule (IN DQ, what the model replays) and what the implementation
 //        did (OUT DQ: per step (kind.function.node) with nodes numbered by first appearance, per
 //        thread return values, drained contents)
-//   c17_deque witness                         the F15 schedule (one thread stalled before its
+//   c17_deque witness                         the (former) F15 schedule (one thread stalled before its
 //        link CAS in stabilize_right), same output format
+//   c17_deque witness2                        the same with the target link re-written by a push's
+//        private store (second half of the F15 repair)
+//   c17_deque witness3 / witness4             the mirror images of witness / witness2 (stabilize_left)
 //   c17_deque seq <seed> <first> <count>      one thread, long random operation sequences (DIFF)
 // Every case derives its randomness from (seed, case id) so a run can be resumed after a case
 // that crashed or hung the real code (the driver restarts at the next id).
@@ -173,6 +176,35 @@ static Case witness_case()
     c.stall_nth = 0;
     c.stall_len = 1000000;    // until everybody else is done
     c.victim_first = true;
+    return c;
+}
+
+// the second half of F15: the target link R0.right is written by the PRIVATE STORE of push_left both
+// in its first and in its second incarnation (R0 is pushed on the left of Z, later everything to its
+// right is popped and X is pushed on its right: stabilize_right CASes (Z,t) -> (X,t+1)); if either
+// alloc_node or the private store restarts the tag, the second incarnation re-creates A's expected
+// value (X,t+1)
+static Case witness2_case()
+{
+    Case c = witness_case();
+    c.init = {{'r', 100}, {'l', 1}, {'l', 50}, {'R', 0}, {'l', 51}, {'r', 2}, {'R', 0}, {'l', 3}};
+    c.progs = {{{'r', 4}},
+        {{'R', 0}, {'L', 0}, {'R', 0}, {'l', 5}, {'l', 6}, {'R', 0}, {'R', 0}, {'L', 0}, {'r', 7}}};
+    return c;
+}
+
+// mirror image: left and right exchanged (stabilize_left, the left link = word 0 of the chunk)
+// (the harness drains from the left, which does not traverse left links: the victim therefore pops
+// `extra` times from the right after its push, so that a corrupted left link shows in its results)
+static Case mirror_case(Case c, int extra)
+{
+    auto flip = [](Prog& p) {
+        for (auto& o : p)
+            o.kind = o.kind == 'l' ? 'r' : o.kind == 'r' ? 'l' : o.kind == 'L' ? 'R' : 'L';
+    };
+    flip(c.init);
+    for (auto& p : c.progs) flip(p);
+    for (int i = 0; i < extra; ++i) c.progs[0].push_back({'R', 0});
     return c;
 }
 
@@ -360,11 +392,18 @@ int main(int argc, char** argv)
     std::signal(SIGABRT, die_handler);
     std::signal(SIGFPE, die_handler);
     std::signal(SIGALRM, die_handler);
-    if (mode == "witness")
+    if (mode == "witness" || mode == "witness2" || mode == "witness3" || mode == "witness4")
     {
         vctl::Rng rng(1);
         g_case = 0;
-        run_lock_case("w", witness_case(), rng);
+        if (mode == "witness")
+            run_lock_case("w", witness_case(), rng);
+        else if (mode == "witness2")
+            run_lock_case("w2", witness2_case(), rng);
+        else if (mode == "witness3")
+            run_lock_case("w3", mirror_case(witness_case(), 3), rng);
+        else
+            run_lock_case("w4", mirror_case(witness2_case(), 2), rng);
         return 0;
     }
     for (long cs = first; cs < first + count; ++cs)
